@@ -73,7 +73,11 @@ pub fn run(a: &Args, out: &mut impl Write) {
                 let mut r = Rng::new(seed);
                 bar.wait();
                 for _ in 0..iters {
-                    let by_panic = r.chance(1, 3);
+                    // one iteration in six takes its guard from inside a destructor that runs while
+                    // the thread is unwinding (`std::thread::panicking()` is true at the acquisition)
+                    let in_unwind = r.chance(1, 6);
+                    let by_panic = !in_unwind && r.chance(1, 3);
+                    let mut iter_body = |r: &mut Rng| {
                     if r.chance(1, 2) {
                         let mut inj = InjectorPP::new();
                         if INSIDE.fetch_add(1, Ordering::SeqCst) != 0 {
@@ -85,7 +89,7 @@ pub fn run(a: &Args, out: &mut impl Write) {
                         let reps = *r.pick(&[1usize, 1, 1, 2, 32, 64]);
                         // sometimes leave a call-count expectation unmet, so that the release itself
                         // panics (normal scope exit, verification fails)
-                        let unmet = !by_panic && r.chance(1, 3);
+                        let unmet = !by_panic && !in_unwind && r.chance(1, 3);
                         if unmet {
                             inj.when_called(shadow::func!(fn (counted)() -> u32))
                                 .will_execute(shadow::fake!(func_type: fn() -> u32, returns: 78, times: 1));
@@ -137,6 +141,22 @@ pub fn run(a: &Args, out: &mut impl Write) {
                         } else {
                             drop(p);
                         }
+                    }
+                    };
+                    if in_unwind {
+                        struct OnDrop<'a>(&'a mut dyn FnMut());
+                        impl Drop for OnDrop<'_> {
+                            fn drop(&mut self) {
+                                (self.0)()
+                            }
+                        }
+                        let mut f = || iter_body(&mut r);
+                        let _ = quiet_catch(std::panic::AssertUnwindSafe(|| {
+                            let _d = OnDrop(&mut f);
+                            panic!("a fixture's destructor takes a guard while unwinding");
+                        }));
+                    } else {
+                        iter_body(&mut r);
                     }
                 }
             }));
